@@ -164,36 +164,39 @@ theorem call_ret_registers {a b c d : Nat} {env : CallEnv} {vm0 vm1 vm2 vm3 : VM
   · cases k <;> exact ⟨R.ret, R.retl⟩
 
 /-- One step of code running in some context that respects memory ownership (C24) and does not itself
-push or pop frames: frames, context and `$fp` stay, `$ssp` never decreases, and memory below the
-context's `$ssp` is not written (the owned stack is `[$ssp, $sp)`, the owned heap lies above `$hp ≥ $sp`). -/
-structure OwnStep (t u : VM) : Prop where
+push or pop frames: frames, context and `$fp` stay, `$ssp` never decreases, and memory between `lo` and the
+context's `$ssp` is not written (the owned stack is `[$ssp, $sp)`, the owned heap lies above `$hp ≥ $sp`).
+`lo` is the end of the VM-initialised area (transaction id, base asset, balance table, transaction bytes = the
+script's initial `$ssp`): that area is rewritten without ownership checks by TRO / SMO-style output updates and by
+the script's balance debits, from any call depth — found by the stream's oracle in the thorough tier. -/
+structure OwnStep (lo : Nat) (t u : VM) : Prop where
   frames : u.frames = t.frames
   fp : u.regs regFp = t.regs regFp
   ssp : t.regs regSsp ≤ u.regs regSsp
-  mem : ∀ x, x < t.regs regSsp → u.mem.bytes x = t.mem.bytes x
+  mem : ∀ x, lo ≤ x → x < t.regs regSsp → u.mem.bytes x = t.mem.bytes x
 
 /-- Balanced executions inside one context: any sequence of ownership-respecting steps and of complete
 CALL … RET/RETD round trips (whose callee is again any balanced execution: call trees of any depth). At each
 CALL site the stack invariants `$ssp ≤ $sp ≤ stack.len()` hold (C23/C24) and the context is internal (these are
 executions of callees: only the script runs in the external context). -/
-inductive Exec : VM → VM → Prop
-  | refl (s : VM) : Exec s s
-  | step {s t u : VM} : Exec s t → OwnStep t u → Exec s u
+inductive Exec (lo : Nat) : VM → VM → Prop
+  | refl (s : VM) : Exec lo s s
+  | step {s t u : VM} : Exec lo s t → OwnStep lo t u → Exec lo s u
   | call {s t t' u u' : VM} {a b c d : Nat} {env : CallEnv} {k : RetKind} :
-      Exec s t → t.regs regSsp ≤ t.regs regSp → t.regs regSp ≤ t.mem.stackLen → t.ctxIsCall = true →
-      prepareCall a b c d env t = .ok t' → Exec t' u → returnFromContext k u = .ok u' → Exec s u'
+      Exec lo s t → t.regs regSsp ≤ t.regs regSp → t.regs regSp ≤ t.mem.stackLen → t.ctxIsCall = true →
+      prepareCall a b c d env t = .ok t' → Exec lo t' u → returnFromContext k u = .ok u' → Exec lo s u'
 
 /-- **A balanced execution cannot modify anything below its context's `$ssp`, and leaves the call depth
 as it found it.** -/
-theorem exec_preserves {s u : VM} (h : Exec s u) :
+theorem exec_preserves {lo : Nat} {s u : VM} (h : Exec lo s u) :
     u.frames = s.frames ∧ u.regs regFp = s.regs regFp ∧ s.regs regSsp ≤ u.regs regSsp ∧
-    ∀ x, x < s.regs regSsp → u.mem.bytes x = s.mem.bytes x := by
+    ∀ x, lo ≤ x → x < s.regs regSsp → u.mem.bytes x = s.mem.bytes x := by
   induction h with
-  | refl s => exact ⟨rfl, rfl, Nat.le_refl _, fun _ _ => rfl⟩
+  | refl s => exact ⟨rfl, rfl, Nat.le_refl _, fun _ _ _ => rfl⟩
   | step _ hs ih =>
     obtain ⟨i1, i2, i3, i4⟩ := ih
     exact ⟨by rw [hs.frames, i1], by rw [hs.fp, i2], Nat.le_trans i3 hs.ssp,
-      fun x hx => by rw [hs.mem x (by omega), i4 x hx]⟩
+      fun x hl hx => by rw [hs.mem x hl (by omega), i4 x hl hx]⟩
   | @call s t t' u u' a b c d env k _ hsp hlen hctx hcall _ hret ih1 ih2 =>
     obtain ⟨i1, i2, i3, i4⟩ := ih1
     obtain ⟨j1, _, _, j4⟩ := ih2
@@ -202,36 +205,36 @@ theorem exec_preserves {s u : VM} (h : Exec s u) :
     have R := ret_cons (by rw [j1, hfr]) hret
     have hfp := hregs regFp (by decide) (by decide)
     have hss := hregs regSsp (by decide) (by decide)
-    refine ⟨by rw [R.frames, i1], ?_, ?_, fun x hx => ?_⟩
+    refine ⟨by rw [R.frames, i1], ?_, ?_, fun x hl hx => ?_⟩
     · rw [R.other regFp (by decide), hfp, i2]
     · rw [R.other regSsp (by decide), hss]; exact i3
-    · rw [R.mem, j4 x (by rw [hssp]; omega), m1 x (by omega) (by simp [debitRange, hctx]), i4 x hx]
+    · rw [R.mem, j4 x hl (by rw [hssp]; omega), m1 x (by omega) (by simp [debitRange, hctx]), i4 x hl hx]
 
 /-- **The callee cannot modify the caller's stack**: after a complete call round trip with an arbitrary
 balanced callee execution, every byte below the caller's `$sp` — its own stack `[$ssp, $sp)` and everything
 beneath — is what it was at the CALL, except the balance word debited when the script forwards coins; and the
 call depth is restored. -/
-theorem caller_stack_unchanged {t t' u u' : VM} {a b c d : Nat} {env : CallEnv} {k : RetKind}
+theorem caller_stack_unchanged {lo : Nat} {t t' u u' : VM} {a b c d : Nat} {env : CallEnv} {k : RetKind}
     (hlen : t.regs regSp ≤ t.mem.stackLen)
-    (hcall : prepareCall a b c d env t = .ok t') (hexec : Exec t' u) (hret : returnFromContext k u = .ok u') :
-    (∀ x, x < t.regs regSp → ¬((debitRange env t).1 ≤ x ∧ x < (debitRange env t).1 + (debitRange env t).2) →
+    (hcall : prepareCall a b c d env t = .ok t') (hexec : Exec lo t' u) (hret : returnFromContext k u = .ok u') :
+    (∀ x, lo ≤ x → x < t.regs regSp → ¬((debitRange env t).1 ≤ x ∧ x < (debitRange env t).1 + (debitRange env t).2) →
       u'.mem.bytes x = t.mem.bytes x) ∧ u'.frames = t.frames := by
   obtain ⟨j1, _, _, j4⟩ := exec_preserves hexec
   obtain ⟨m1, _, _, _⟩ := call_writes_above_caller_stack hcall hlen
   obtain ⟨cs, f, _, hfr, _, _, _, _, _, hssp, _⟩ := callee_entry_state hcall
   have R := ret_cons (by rw [j1, hfr]) hret
-  exact ⟨fun x hx hd => by rw [R.mem, j4 x (by rw [hssp]; omega), m1 x hx hd], R.frames⟩
+  exact ⟨fun x hl hx hd => by rw [R.mem, j4 x hl (by rw [hssp]; omega), m1 x hx hd], R.frames⟩
 
 /-- in an internal context (a contract calling a contract) nothing at all below `$sp` changes; in the external
 context the balance table lies in the VM-initialised area below the script's `$ssp`, so the script's own stack
 `[$ssp, $sp)` is unchanged whenever the debited word is below `$ssp` -/
-theorem caller_own_stack_unchanged {t t' u u' : VM} {a b c d : Nat} {env : CallEnv} {k : RetKind}
-    (hlen : t.regs regSp ≤ t.mem.stackLen)
+theorem caller_own_stack_unchanged {lo : Nat} {t t' u u' : VM} {a b c d : Nat} {env : CallEnv} {k : RetKind}
+    (hlen : t.regs regSp ≤ t.mem.stackLen) (hlo : lo ≤ t.regs regSsp)
     (hbal : t.ctxIsCall = true ∨ (debitRange env t).1 + (debitRange env t).2 ≤ t.regs regSsp)
-    (hcall : prepareCall a b c d env t = .ok t') (hexec : Exec t' u) (hret : returnFromContext k u = .ok u') :
+    (hcall : prepareCall a b c d env t = .ok t') (hexec : Exec lo t' u) (hret : returnFromContext k u = .ok u') :
     ∀ x, t.regs regSsp ≤ x → x < t.regs regSp → u'.mem.bytes x = t.mem.bytes x := by
   intro x h1 h2
-  refine (caller_stack_unchanged hlen hcall hexec hret).1 x h2 ?_
+  refine (caller_stack_unchanged hlen hcall hexec hret).1 x (by omega) h2 ?_
   rcases hbal with hc | hb
   · simp [debitRange, hc]
   · omega
@@ -239,12 +242,12 @@ theorem caller_own_stack_unchanged {t t' u u' : VM} {a b c d : Nat} {env : CallE
 /-- **The whole round trip, for any callee.** CALL, then ANY balanced execution of the callee (arbitrary code obeying
 the ownership rule, nested call trees of any depth), then RET/RETD: the caller's registers are restored except `$pc`
 (= call site + 4) and the kept registers, its call depth is back, and its stack bytes are unchanged. -/
-theorem call_round_trip {t t' u u' : VM} {a b c d : Nat} {env : CallEnv} {k : RetKind}
+theorem call_round_trip {lo : Nat} {t t' u u' : VM} {a b c d : Nat} {env : CallEnv} {k : RetKind}
     (hlen : t.regs regSp ≤ t.mem.stackLen) (hpc : t.regs regPc + 4 < 2 ^ 64)
-    (hcall : prepareCall a b c d env t = .ok t') (hexec : Exec t' u) (hret : returnFromContext k u = .ok u') :
+    (hcall : prepareCall a b c d env t = .ok t') (hexec : Exec lo t' u) (hret : returnFromContext k u = .ok u') :
     (∀ i, i ∉ regPc :: retKeptRegs → u'.regs i = t.regs i) ∧ u'.regs regPc = t.regs regPc + 4 ∧
     u'.frames = t.frames ∧ u'.regs regHp = u.regs regHp ∧
-    (∀ x, x < t.regs regSp → ¬((debitRange env t).1 ≤ x ∧ x < (debitRange env t).1 + (debitRange env t).2) →
+    (∀ x, lo ≤ x → x < t.regs regSp → ¬((debitRange env t).1 ≤ x ∧ x < (debitRange env t).1 + (debitRange env t).2) →
       u'.mem.bytes x = t.mem.bytes x) := by
   obtain ⟨hf, _, _, _⟩ := exec_preserves hexec
   obtain ⟨r1, r2, r3, _, r5, _⟩ := call_ret_registers hcall hf hret hpc
